@@ -7,9 +7,10 @@
 (* the specification's acceptance relation.                                *)
 (*                                                                         *)
 (* Every record is judged (the run does not stop at the first rejection):  *)
-(* a rejected record prints  <<"REJECTED", idx, verdict, why>> (JSON) where *)
+(* a rejected record prints <<"REJECTED", idx, verdict, why>> (as JSON):   *)
 (* verdict is the set of minimal sets of defect shapes that explain the    *)
-(* answer ({{"other"}} when none does) and why lists the failing clauses.  *)
+(* answer ({{"other"}} when none does), why lists the failing clauses that *)
+(* no defect shape accounts for.                                           *)
 (***************************************************************************)
 EXTENDS NetConn, IOUtils, SequencesExt, Functions
 
@@ -32,8 +33,8 @@ Match == (out # Pending) =>
            LET got == Got(Traces[idx].got)
                v   == Verdict(inp, got)
            IN \/ v = {}
-              \/ PrintT(<<"REJECTED", idx, ToJson(v), ToJson(Why(out, got))>>)
+              \/ PrintT(<<"REJECTED", idx, ToJson(v), ToJson(WhyCore(inp, got))>>)
 
-\* the records are really consumed (vacuity guard, printed once per record kind)
+\* every record is really evaluated (the harness also counts the states)
 Judged == (out # Pending) => (out = F(inp))
 =============================================================================
